@@ -316,11 +316,14 @@ theorem insert_rows_refines (s s' : Sheet) (hw : WF s.rows) (row n : Int)
   · simp [g1, g2, g3] at h
   simp only [g1, g2, g3, if_false] at h
   have hrow : 1 ≤ row := by omega
+  by_cases hhit' : (Facts.C06.rangeCheckFirst && rangeLimitHit s .rows row n) = true
+  · rw [adjustHelperG_hit s .rows row n hhit'] at h; cases h
+  have hhit : (Facts.C06.rangeCheckFirst && rangeLimitHit s .rows row n) = false := by simpa using hhit'
   have hn : 1 ≤ n := by omega
   cases hd : adjustRowDimensions s.rows row n with
   | none =>
-    have : adjustHelperG false s .rows row n = (.err, s) := by
-      unfold adjustHelperG adjustDims; simp [hd]
+    have : adjustHelperG false s .rows row n = (.err, s) :=
+      adjustHelperG_dims_none s .rows row n (by unfold adjustDims; simp [hd])
     rw [this] at h; cases h
   | some rows1 =>
     obtain ⟨e1, hlim⟩ := adjustRowDimensions_some s.rows hw.rowsDense row n hrow rows1 hd
@@ -328,7 +331,7 @@ theorem insert_rows_refines (s s' : Sheet) (hw : WF s.rows) (row n : Int)
     obtain ⟨hwf, hview⟩ := rows_ins_view s.rows hw row n hrow hn (fun hc => hlim hc (by omega)) out hslots
     have hdims : adjustDims s .rows row n = some { s with rows := rows1 } := by
       unfold adjustDims; simp [hd]
-    have hfw := adjustHelper_forward s { s with rows := rows1 } .rows row n out out hdims
+    have hfw := adjustHelper_forward s { s with rows := rows1 } .rows row n out out hhit hdims
       (by simpa [e1] using ho) (checkRow_id hwf)
     unfold adjustHelper at hfw
     rw [hfw] at h
@@ -371,8 +374,8 @@ theorem remove_row_refines (s s' : Sheet) (hw : WF s.rows) (row : Int)
   have hfd : DenseK Row.r s.rows := hw.rowsDense
   cases hd : adjustRowDimensions s0.rows row (-1) with
   | none =>
-    have : adjustHelperG false s0 .rows row (-1) = (.err, s0) := by
-      unfold adjustHelperG adjustDims; simp [hd]
+    have : adjustHelperG false s0 .rows row (-1) = (.err, s0) :=
+      adjustHelperG_dims_none s0 .rows row (-1) (by unfold adjustDims; simp [hd])
     rw [this] at h0; cases h0
   | some rows1 =>
     have e1 : rows1 = s0.rows.map (shiftRow row (-1)) := by
@@ -388,7 +391,8 @@ theorem remove_row_refines (s s' : Sheet) (hw : WF s.rows) (row : Int)
         · exact (Option.some.inj hd).symm
     have hdims : adjustDims s0 .rows row (-1) = some { s0 with rows := rows1 } := by
       unfold adjustDims; simp [hd]
-    have hfw := adjustHelper_forward s0 { s0 with rows := rows1 } .rows row (-1) out out hdims
+    have hfw := adjustHelper_forward s0 { s0 with rows := rows1 } .rows row (-1) out out
+      (by simp [rangeLimitHit_neg s0 .rows row (-1) (by omega)]) hdims
       (by simpa [e1, hs0] using ho) (checkRow_id hwf)
     unfold adjustHelper at hfw
     rw [hfw] at h0
@@ -420,9 +424,8 @@ theorem remove_row_refines (s s' : Sheet) (hw : WF s.rows) (row : Int)
 `limit_checks_first` pins that the Go code has not yet started its pass over
 the other sheets) -/
 theorem rejected_by_content_limit_noop (s : Sheet) (dir : Dir) (num off : Int)
-    (h : adjustDims s dir num off = none) : adjustHelper s dir num off = (.err, s) := by
-  unfold adjustHelper adjustHelperG
-  simp [h]
+    (h : adjustDims s dir num off = none) : adjustHelper s dir num off = (.err, s) :=
+  adjustHelperG_dims_none s dir num off h
 
 /-- the argument checks reject without touching the sheet -/
 theorem rejected_by_arguments_noop (s : Sheet) (row n : Int) (h : row < 1 ∨ n < 1 ∨ row ≥ maxRows ∨ n ≥ maxRows) :
@@ -451,20 +454,16 @@ theorem row_limit_iff (rows : List Row) (last : Row) (hl : rows.getLast? = some 
     have : last.r ≥ row ∧ last.r + n > 0 ∧ last.r + n > maxRows := ⟨h.1, by omega, h.2⟩
     simp [this]
 
-/-- the witness sheet of the open finding: one cell in row 7, a data validation on `A1048576` -/
+/-- the witness sheet of the (repaired) finding: one cell in row 7, a data validation on `A1048576` -/
 def witnessSheet : Sheet :=
   { Sheet.empty with
     rows := (List.range 7).map fun (i : Nat) =>
       ⟨(i : Int) + 1, false, "-", if i = 6 then [⟨1, 7, 0, "_.31.N"⟩] else []⟩,
     dvs := [⟨[⟨1, 1048576, 1, 1048576⟩], "dv"⟩] }
 
-/-- FINDING (open): the full statement "a rejected edit changes nothing" fails
-for objects that reach the last row/column without cell content behind them:
-the limit check only looks at cell content, the rows have moved when
-`adjustDataValidations` fails. `InsertRows(sheet, 5, 1)` on the witness returns
-an error and leaves the cell of row 7 in row 8. -/
-theorem finding_rejected_after_mutation :
-    (insertRows witnessSheet 5 1).1 = .err ∧ (insertRows witnessSheet 5 1).2 ≠ witnessSheet := by
+/-- the former witness of "rejected after mutation" (fixed by `checkAdjustRangeLimit`): the data validation on
+`A1048576` would be pushed off the sheet, so `InsertRows(sheet, 5, 1)` is rejected before anything moved -/
+theorem witness_rejected_unchanged : insertRows witnessSheet 5 1 = (.err, witnessSheet) := by
   decide +kernel
 
 /-- non-vacuity: the same edit without the data validation is accepted and moves row 7 to row 8 -/
@@ -550,11 +549,53 @@ theorem runAdjusters_no_objects (t : Sheet) (dir : Dir) (num off : Int) (h : NoR
   rw [adjuster_order_ok]
   simp [runAdjusters, runAdjuster, adjustSqItems, adjustMerges, adjustFilter, adjustTables, h1, h2, h3, h4, h5]
 
+/-- the range objects of the sheet are data validations and conditional formats with references inside the sheet -/
+def SqObjectsOnly (s : Sheet) : Prop :=
+  s.merges = [] ∧ s.filter = none ∧ s.tables = [] ∧
+  ∀ it ∈ s.cfs ++ s.dvs, ∀ q ∈ it.rects, rectOk q = true
+
+/-- what the range limit check guarantees for the sqref ranges -/
+theorem no_hit_sq (t : Sheet) (dir : Dir) (num off : Int) (hoff : 0 < off)
+    (hno : rangeLimitHit t dir num off = false) :
+    ∀ it ∈ t.cfs ++ t.dvs, ∀ q ∈ it.rects, exceeds dir num off (axisStart dir q) = false := by
+    intro it hit q hqm
+    unfold rangeLimitHit at hno
+    have ho : decide (off > 0) = true := by simp [hoff]
+    simp only [ho, Bool.true_and, Bool.or_eq_false_iff] at hno
+    have h1 := hno.1.1
+    rw [List.any_eq_false] at h1
+    have h2 := h1 it hit
+    simp only [Bool.not_eq_true] at h2
+    rw [List.any_eq_false] at h2
+    simpa using h2 q hqm
+
+theorem runAdjusters_sq_ok (t : Sheet) (dir : Dir) (num off : Int) (hoff : 0 < off) (h : SqObjectsOnly t)
+    (hex : ∀ it ∈ t.cfs ++ t.dvs, ∀ q ∈ it.rects, exceeds dir num off (axisStart dir q) = false) :
+    (runAdjusters Facts.C06.adjusters dir num off t).1 = .ok := by
+  obtain ⟨h3, h4, h5, hq⟩ := h
+  have hcf := adjustSqItems_ok dir num off hoff t.cfs
+    (fun it hit q hqm => ⟨hq it (List.mem_append_left _ hit) q hqm, hex it (List.mem_append_left _ hit) q hqm⟩)
+  have hdv := adjustSqItems_ok dir num off hoff t.dvs
+    (fun it hit q hqm => ⟨hq it (List.mem_append_right _ hit) q hqm, hex it (List.mem_append_right _ hit) q hqm⟩)
+  rcases hc : adjustSqItems dir num off t.cfs with ⟨st1, x1⟩
+  rcases hd : adjustSqItems dir num off t.dvs with ⟨st2, x2⟩
+  rw [hc] at hcf; rw [hd] at hdv
+  simp only at hcf hdv
+  subst hcf; subst hdv
+  rw [adjuster_order_ok]
+  simp [runAdjusters, runAdjuster, adjustMerges, adjustFilter, adjustTables, hc, hd, h3, h4, h5]
+
+
+/-- the read-only range limit check runs before the dimension step -/
+theorem range_check_first : Facts.C06.rangeCheckFirst = true := by decide
+
 /-- clause "an edit that is rejected … changes nothing", full strength for `InsertRows` on dense worksheets
-without range objects: whatever the arguments, a status other than `ok` leaves the sheet as it was. The
-hypothesis `NoRangeObjects` is what the current code needs: with a data validation / conditional format /
-auto filter / table reaching the last rows the statement is false (`finding_rejected_after_mutation`). -/
-theorem rejected_noop_insert_rows (s s' : Sheet) (hw : WF s.rows) (hno : NoRangeObjects s) (row n : Int)
+whose range objects are data validations and conditional formats with references inside the sheet (hyperlinks
+arbitrary): whatever the arguments and wherever the ranges reach, a status other than `ok` leaves the sheet as
+it was — the former finding `rejected-after-mutation` (a data validation on the last row) is repaired by the
+range limit check. Merged cells, auto filter and tables are covered by the same check in the code and by the
+transcript; their adjuster-success lemmas are not proved. -/
+theorem rejected_noop_insert_rows (s s' : Sheet) (hw : WF s.rows) (hno : SqObjectsOnly s) (row n : Int)
     (st : Status) (h : insertRows s row n = (st, s')) (hst : st ≠ .ok) : s' = s := by
   unfold insertRows insertRowsG at h
   by_cases g1 : row < 1
@@ -565,11 +606,14 @@ theorem rejected_noop_insert_rows (s s' : Sheet) (hw : WF s.rows) (hno : NoRange
   · simp [g1, g2, g3] at h; exact h.2.symm
   simp only [g1, g2, g3, if_false] at h
   have hrow : 1 ≤ row := by omega
+  by_cases hhit' : (Facts.C06.rangeCheckFirst && rangeLimitHit s .rows row n) = true
+  · rw [adjustHelperG_hit s .rows row n hhit'] at h; exact (Prod.mk.inj h).2.symm
+  have hhit : (Facts.C06.rangeCheckFirst && rangeLimitHit s .rows row n) = false := by simpa using hhit'
   have hn : 1 ≤ n := by omega
   cases hd : adjustRowDimensions s.rows row n with
   | none =>
-    have : adjustHelperG false s .rows row n = (.err, s) := by
-      unfold adjustHelperG adjustDims; simp [hd]
+    have : adjustHelperG false s .rows row n = (.err, s) :=
+      adjustHelperG_dims_none s .rows row n (by unfold adjustDims; simp [hd])
     rw [this] at h; exact (Prod.mk.inj h).2.symm
   | some rows1 =>
     exfalso
@@ -578,14 +622,16 @@ theorem rejected_noop_insert_rows (s s' : Sheet) (hw : WF s.rows) (hno : NoRange
     obtain ⟨hwf, _⟩ := rows_ins_view s.rows hw row n hrow hn (fun hc => hlim hc (by omega)) out hslots
     have hdims : adjustDims s .rows row n = some { s with rows := rows1 } := by
       unfold adjustDims; simp [hd]
-    have hfw := adjustHelper_forward s { s with rows := rows1 } .rows row n out out hdims
+    have hfw := adjustHelper_forward s { s with rows := rows1 } .rows row n out out hhit hdims
       (by simpa [e1] using ho) (checkRow_id hwf)
     unfold adjustHelper at hfw
     rw [hfw] at h
-    have hok := runAdjusters_no_objects
+    have hnohit : rangeLimitHit s .rows row n = false := by
+      simpa [range_check_first] using hhit
+    have hok := runAdjusters_sq_ok
       { ({ s with rows := rows1 } : Sheet) with
         links := adjustHyperlinks ({ s with rows := rows1 } : Sheet).links .rows row n, rows := out }
-      .rows row n hno
+      .rows row n (by omega) hno (no_hit_sq s .rows row n (by omega) hnohit)
     rw [h] at hok
     exact hst hok
 
